@@ -263,7 +263,10 @@ Arguments body {fam bytes}. Arguments wrap {bytes}. Arguments unwrap {bytes}.
    End t p = request t leaves the handler function (p: by panic) -- the deferred receive
    from the channel runs on every exit path.  Events that make no sense (End of a request
    that is not running, Start of one that already started) are ignored. *)
-Inductive ev := Start (t : Z) | End (t : Z) (panicked : bool).
+(* TimedOut t = http.TimeoutHandler (HandlerOpts.Timeout) answers request t with its own 503 while the wrapped
+   handler function -- and with it the gather -- keeps running: the semaphore is acquired INSIDE the wrapped
+   function (http.go:160-170 is within h, http.go:261-267 wraps h), so the slot stays taken until End t. *)
+Inductive ev := Start (t : Z) | End (t : Z) (panicked : bool) | TimedOut (t : Z).
 Inductive tstate := TRunning | TRejected | TFinished.
 Record sem := mkSem {
   m_threads : list (Z * tstate); m_count : Z;      (* len(inFlightSem) *)
@@ -304,10 +307,12 @@ Definition sem_step (limit : Z) (m : sem) (e : ev) : sem :=
                 (m_gathers m) (m_dones m + 1) (m_503 m) (m_peak m)
       | _ => m
       end
+  | TimedOut _ => m
   end.
 Definition sem_run (limit : Z) (es : list ev) : sem := fold_left (sem_step limit) es sem0.
 
-(* per-event outcome for the correspondence: 1 admitted, 2 rejected (503), 0 nothing happened *)
+(* per-event outcome for the correspondence: 1 let in, 2 rejected (limit 503), 3 answered by the timeout 503
+   while its gather goes on, 0 nothing happened *)
 Fixpoint sem_outcomes (limit : Z) (m : sem) (es : list ev) : list Z :=
   match es with
   | [] => []
@@ -319,6 +324,7 @@ Fixpoint sem_outcomes (limit : Z) (m : sem) (es : list ev) : list Z :=
                     | None => if sem_admits limit (m_count m) then 1 else 2
                     end
        | End _ _ => 0
+       | TimedOut t => match tlookup t (m_threads m) with Some TRunning => 3 | _ => 0 end
        end) :: sem_outcomes limit m' r
   end.
 
@@ -433,5 +439,8 @@ Fixpoint spec_sched (limit : Z) (th : list (Z * tstate)) (es : list ev) (outs : 
       end
   | End t _ :: es', o :: outs' =>
       (o =? 0) && spec_sched limit (match tlookup t th with Some TRunning => tset t TFinished th | _ => th end) es' outs'
+  | TimedOut t :: es', o :: outs' =>
+      (* the timeout answers the client; the gather still runs and still occupies its slot *)
+      (o =? match tlookup t th with Some TRunning => 3 | _ => 0 end) && spec_sched limit th es' outs'
   | _, _ => false
   end.
